@@ -4,6 +4,9 @@ angle increment, emitted points) and BufferParameters::bufferDistanceError, with
 OSG = 'src/operation/buffer/OffsetSegmentGenerator.cpp'
 BP = 'src/operation/buffer/BufferParameters.cpp'
 R = ['C06.PreludeR']
+BCSB = 'src/operation/buffer/BufferCurveSetBuilder.cpp'
+TRI = 'src/geom/Triangle.cpp'
+E = ['C06.GenPreludeErode']     # = C08.GenPreludeR (reals, CoordinateXY = pair) + ring / triangle / envelope representation
 UNITS = {
     'C06_fillet': dict(src=OSG, qual='geos::operation::buffer::OffsetSegmentGenerator::addDirectedFillet', nparams=5,
                        ptypes=['Coordinate', 'double', 'double', 'int', 'double'], imports=R, gname='g_addDirectedFillet',
@@ -11,4 +14,16 @@ UNITS = {
                        enum_scopes={'CLOCKWISE': 'geos::algorithm::Orientation::CLOCKWISE'}),
     'C06_distErr': dict(src=BP, qual='geos::operation::buffer::BufferParameters::bufferDistanceError', nparams=1, imports=R,
                         gname='g_bufferDistanceError', imports_last=True),
+    # ---- the decisions that DROP a ring from a negative / hole-side buffer (read over the reals, C06/GenPreludeErode.v)
+    'C06_envWidth': dict(src=BCSB, qual='geos::geom::Envelope::getWidth', nparams=0, imports=E, imports_last=True, gname='m_getWidth_0'),
+    'C06_envHeight': dict(src=BCSB, qual='geos::geom::Envelope::getHeight', nparams=0, imports=E, imports_last=True, gname='m_getHeight_0'),
+    'C06_inCentre': dict(src=TRI, qual='geos::geom::Triangle::inCentre', nparams=1, imports=E, imports_last=True, gname='m_inCentre_1',
+                         deps=['C08_coordDist'], returns_param='result', param_types={'result': 'rpt'}),
+    'C06_triEroded': dict(src=BCSB, qual='geos::operation::buffer::BufferCurveSetBuilder::isTriangleErodedCompletely', nparams=2, imports=E,
+                          imports_last=True, gname='g_isTriangleErodedCompletely', deps=['C06_inCentre', 'C08_ptSeg'],
+                          out_member_calls={'inCentre': [0]}, aliases={'c_pointToSegment_3': 'g_pointToSegment'}),
+    'C06_ringEroded': dict(src=BCSB, qual='geos::operation::buffer::BufferCurveSetBuilder::isRingFullyEroded', nparams=4,
+                           ptypes=['CoordinateSequence', 'Envelope', 'bool', 'double'], imports=E, imports_last=True,
+                           gname='g_isRingFullyEroded', deps=['C06_envWidth', 'C06_envHeight', 'C06_triEroded'],
+                           aliases={'m_isTriangleErodedCompletely_2': '(fun _ : unit => g_isTriangleErodedCompletely)'}),
 }
